@@ -61,6 +61,16 @@ def gen_consts():
     return out
 
 
+def gen_consts_values():
+    """the constants of gen/Consts.v (regenerated from the source by gen_consts) as a dict"""
+    import re
+    vals = {}
+    for m in re.finditer(r"Definition (\w+) : N := (\d+)\.", open(os.path.join(COQ, "gen", "Consts.v")).read()):
+        vals[m.group(1)] = int(m.group(2))
+    return {"WAKE_INC": vals["TASK_WAKE_INC"], "REF_INC": vals["TASK_REF_INC"], "CLOSED": vals["TASK_CLOSED"],
+            "POLLING": vals["TASK_POLLING"], "all": vals}
+
+
 def forbidden_scan():
     """No Admitted/admit/Axiom/Parameter/... anywhere in the development (comments are stripped
     first; Section-local Variable/Hypothesis are allowed only inside a Section)."""
